@@ -40,6 +40,9 @@ func bigTextCases(r *rand.Rand, st *Stats, n int, prefix string) []Case {
 		"replace all 'x' with '" + long + "'", "replace all whole file with 'k'", "replace all whole line with value value",
 		"replace top 1 'x' with matchNumber", "replace all 'nomatchatall' with 'q'", "replace last 1 at least 1 digit with 'N'",
 		"replace all (letter = l) 'x' with l l",
+		// patterns led by a literal of several bytes: an occurrence may straddle any internal block border
+		"find all 'needle'", "find all 'needle' maybe digit", "replace all 'needle' with 'N'", "find all 'xy' or 'needle'",
+		"find all caseless 'NEEDLE'", "find skip 1 'needle'",
 	}
 	sizesB := []int{4095, 4096, 4097, 4200, 5000, 6144, 6145, 8191, 8192, 8193} // the list model reads in O(offset): keep n^2 small
 	out := []Case{}
@@ -92,6 +95,32 @@ func bigTextCases(r *rand.Rand, st *Stats, n int, prefix string) []Case {
 			for k := 0; k < 40; k++ {
 				put(r.Intn(size))
 			}
+		}
+		if strings.Contains(strings.ToLower(src), "needle") {
+			// words at every alignment around the 4096-byte marks (and one early, one at the very end)
+			word := "needle"
+			putWord := func(pos int) {
+				if pos >= 0 && pos+len(word) <= size {
+					copy(b[pos:], word)
+				}
+			}
+			d := r.Intn(10) - 7
+			switch r.Intn(4) {
+			case 0:
+				putWord(4096 + d)
+			case 1:
+				putWord(3)
+				putWord(4096 + d + 1) // borders counted from the end of an earlier attempt
+				putWord(8192 + d)
+			case 2:
+				for _, base := range []int{4096, 4097, 8192, 8193} {
+					putWord(base + r.Intn(10) - 7)
+				}
+			default:
+				putWord(size - len(word))
+				putWord(4096 + d)
+			}
+			st.Features["big-text-word-at-block-border"]++
 		}
 		for _, via := range []string{"", "viafile"} {
 			f := []string{hx(src), hx(string(b))}
@@ -212,6 +241,8 @@ func init() {
 			cs = append(cs, c)
 		}
 		st.Features["trace-cases"] = sizes(tier, 500, 12000) * 3
+		// texts beyond one 4096-byte block (the scan itself, not only the reader, may work block-wise)
+		cs = append(cs, bigTextCases(r, st, sizes(tier, 52, 260), "big")...)
 		return append(cs, extremeCases(st, "x")...)
 	}
 	propGens["C02"] = func(r *rand.Rand, tier string, st *Stats) []Case {
@@ -232,7 +263,7 @@ func init() {
 		cfg.MultiCmd = true
 		cs := searchCases(r, st, sizes(tier, 1300, 30000), cfg, 4, 20, "g")
 		cs = append(cs, viaFileClones(r, st, cs, 7)...)
-		cs = append(cs, bigTextCases(r, st, sizes(tier, 20, 200), "big")...)
+		cs = append(cs, bigTextCases(r, st, sizes(tier, 52, 260), "big")...)
 		cs = append(cs, extremeCases(st, "x")...)
 		return append(cs, bindFailCases(r, st, sizes(tier, 300, 6000), "b")...)
 	}
@@ -248,6 +279,7 @@ func init() {
 		cs = append(cs, extremeCases(st, "x")...)
 		cs = append(cs, declOrderCases(r, st, sizes(tier, 300, 4000))...)
 		cs = append(cs, shadowCases(st)...)
+		cs = append(cs, numericTextCases(st)...)
 		return append(cs, withNameCases(r, st, sizes(tier, 400, 8000))...)
 	}
 	propGens["C09"] = func(r *rand.Rand, tier string, st *Stats) []Case {
@@ -415,6 +447,30 @@ func shadowCases(st *Stats) []Case {
 						out = append(out, Case{ID: fmt.Sprintf("sh%d", i), Op: "run", Fields: []string{hx(src), hx(text)}, Meta: map[string]string{}})
 					}
 				}
+			}
+		}
+	}
+	return out
+}
+
+// numericTextCases: transforms that use the matched text or a capture AS A NUMBER, on texts whose digit runs are not
+// in canonical decimal form — leading zeros, signs, hex/octal/binary-looking prefixes, digit separators, too long for
+// 64 bits, empty.  The documented coercion is "decimal parse or 0".
+func numericTextCases(st *Stats) []Case {
+	tbodies := []string{"return match * 1", "return match % 15", "return n * 1 + 1", "if n * 1 > 9 then return 'big' end return 'small'",
+		"return 0 + match", "return matchLength + n"}
+	bodies := []string{"(at least 1 in '0' to '9', 'x', 'b', 'o', '_', 'a' to 'f') = n", "(maybe in '+', '-' at least 1 digit) = n"}
+	texts := []string{"015 08 0010 7 00", "0x10 0b101 0o17 1_000 1e3", "-5 +5 -0 +015", "99999999999999999999 9223372036854775808 0",
+		"12 012 0012", "0xff 0XFF 0b2 09"}
+	out := []Case{}
+	i := 0
+	for _, tb := range tbodies {
+		for _, b := range bodies {
+			for _, text := range texts {
+				i++
+				src := "set t to transform\n  " + tb + "\nend\nreplace all " + b + " with '<' t '>'"
+				st.Features["transform-number-of-noncanonical-digits"]++
+				out = append(out, Case{ID: fmt.Sprintf("nt%d", i), Op: "run", Fields: []string{hx(src), hx(text)}, Meta: map[string]string{}})
 			}
 		}
 	}
